@@ -209,6 +209,9 @@ void World::doSnapshot(const Op& op) {
 			violate("C08.save_pure", "A: save() changed the instance or ran callbacks", iA);
 		checked("C08.buffer");
 		if (int(bytes.size()) != A.node->serialBytes()) { std::snprintf(b, sizeof b, "A: save() wrote outside the %d-byte buffer", A.node->serialBytes()); violate("C08.buffer", b, iA); }
+		// the buffer's size follows from the structure
+		checked("C08.buffer_size");
+		if (A.node->serialBits() != A.h->shape->serialBitsNeeded()) { std::snprintf(b, sizeof b, "A: the serial buffer is declared with %d bits; the structure's longest image needs %d", A.node->serialBits(), A.h->shape->serialBitsNeeded()); violate("C08.buffer_size", b, iA); }
 	}
 	if (iT >= 0 && slots[size_t(iT)].obs.alive) {
 		std::vector<uint8_t> tb; slots[size_t(iT)].h->beginOp(&neutral); slots[size_t(iT)].node->save(tb);
